@@ -4,3 +4,4 @@ import GwcsProofs.C08
 import GwcsProofs.C14
 import GwcsProofs.C03
 import GwcsProofs.C13
+import GwcsProofs.C15
